@@ -49,3 +49,5 @@ Definition crop_case (central : bool) (v : list Q) (n_small : nat) (expected : l
   list_qeq (crop_1d central v n_small) expected.
 Definition mask_case (flags : list bool) (x expected : list Q) : bool := list_qeq (mask_times flags x) expected.
 Definition mask_adj_case (flags : list bool) (y expected : list Q) : bool := list_qeq (mask_adjoint flags y) expected.
+
+Definition regime_case (lo hi dist : Q) (obs : nat) : bool := Nat.eqb (erf_regime lo hi dist) obs.
